@@ -12,6 +12,17 @@ structure Link (c i : Cert) : Prop where
 
 def certsOf (l : List SC) : List Cert := l.map (·.c)
 
+/-- an abstract signature scheme: `V k t s` = the signature value `s` verifies over the signed content `t` under key
+    `k`.  `binding` is the cryptographic ASSUMPTION the tamper theorems rest on (ECDSA unforgeability + SHA-256
+    collision resistance, stated as: one signature value is valid for at most one content under a key) -/
+structure SigScheme where
+  V : Nat → Tbs → Nat → Prop
+  binding : ∀ k t t' s, V k t s → V k t' s → t = t'
+
+/-- soundness of the abstraction of a message: the key recorded in `sigBy` really validates the signature value over
+    the message's signed content (what harness/sec_common.abs_msg computes by public-key recovery) -/
+def Msg.SigSound (G : SigScheme) (m : Msg) : Prop := ∀ k, m.sigBy = some k → G.V k m.tbs m.sig
+
 /-- a finite chain of `Link`s from `c` through stored authorities up to a configured root -/
 inductive Chain (st : Store) : Cert → Prop
   | root {c : Cert} : c ∈ certsOf st.roots → Chain st c
